@@ -281,8 +281,9 @@ def run(repo, rep, tier):
             now = n.func.attr in ('fail', 'warn', 'info', 'good', 'head') and wn is not None and isinstance(wn, ast.Constant) and wn.value is True and _outbuf_root(n.func.value)
             if not (direct or now):
                 continue
-            conds = [(unparse(t), pol) for t, pol, k in path_condition(n) if k in ('if', 'guard')]
-            single_only = ('len(aconf.target_list) > 0', False) in conds or ('len(aconf.target_list) == 0', True) in conds
+            from sa.logic import implied_atoms as _ia8
+            conds = {(unparse(t), pol) for t, pol in _ia8([c_ for c_ in path_condition(n) if c_[2] in ('if', 'guard', 'ifexp', 'and', 'or')])}
+            single_only = bool(conds & {('len(aconf.target_list) > 0', False), ('len(aconf.target_list) == 0', True), ('aconf.target_list', False), ('aconf.target_list == []', True), ('aconf.target_list != []', False)})
             if single_only:
                 continue
             nflush += 1
